@@ -293,6 +293,28 @@ pub fn run(tier: Tier) -> i32 {
         }
     });
     ctx.count("psk_replaced_by_set_psk_cases", psk_names.len() as u64);
+    // 3b0. the plain way to supply a PSK after building: the builder is given none, both parties install every PSK
+    // through set_psk (into empty slots) before the first message - an honest session like any other, so a refusal
+    // of set_psk is judged here
+    psk_names.par_iter().for_each(|p| {
+        if let Some(cfg0) = cfg_for(p, 8, Eph2::Scripted) {
+            let mut cfg = cfg0.clone();
+            let mut pre = vec![];
+            for slot in &p.psks {
+                let loc = usize::from(*slot);
+                // keep the value findable for the executor (it takes the first side that has one): the initiator's
+                // builder is given nothing, the responder's neither - the value comes from the honest configuration
+                cfg.psks[0][loc] = None;
+                cfg.psks[1][loc] = None;
+                pre.push(Op::SetPsk { side: Side::I, loc, klen: 32 });
+                pre.push(Op::SetPsk { side: Side::R, loc, klen: 32 });
+            }
+            let mut ops = pre;
+            ops.extend(sess::full_session_ops(p, &[3, 3, 3, 3], Mode::TS, &[Side::I, Side::R], &[2, 2]));
+            eval(&cfg, &ops);
+        }
+    });
+    ctx.count("psk_supplied_only_through_set_psk_cases", psk_names.len() as u64);
     // 3d. the two parties need not use the same backend: ring-preferring initiator with a default responder and the
     // other way round, every cipher x hash the ring backend serves (and one it does not), a spread of patterns
     {
